@@ -544,10 +544,12 @@ impl<W: Write> RdbWriter<W> {
     fn write_key_value(&mut self, key: &[u8], value: &Value, ttl: Option<Duration>) -> io::Result<()> {
         // Write expiry if present
         if let Some(ttl) = ttl {
-            let expiry_ms = SystemTime::now()
+            // a TTL close to u64::MAX ms (PEXPIRE k 18446744073709551615) must not overflow
+            let ttl_ms = u64::try_from(ttl.as_millis()).unwrap_or(u64::MAX);
+            let expiry_ms = (SystemTime::now()
                 .duration_since(UNIX_EPOCH)
                 .unwrap()
-                .as_millis() as u64 + ttl.as_millis() as u64;
+                .as_millis() as u64).saturating_add(ttl_ms);
             
             self.write_byte(RdbOpcode::ExpireTimeMs as u8)?;
             self.write_u64_le(expiry_ms)?;
